@@ -147,8 +147,27 @@ def run(repo, rep):
     rep.check(ok, "C10-c", f"{HS}:Box.transform_with_strides_and_skirt", "pad_bottom = max(0, k_start + total_stride + k_dilated_height - ifm_height * upscaling)",
               norm(pb[0].value) if pb else "bottom padding is no longer derived from the position of the last kernel row")
     ts = [s for s in ast.walk(tf) if isinstance(s, ast.Assign) and norm(s.targets[0]) == "total_stride"]
-    rep.check(len(ts) == 1 and norm(ts[0].value) == "stride * (new_end_coord[-3] - new_start_coord[-3] - 1)", "C10-c", f"{HS}:Box.transform_with_strides_and_skirt",
-              "total_stride = stride * (rows - 1)", norm(ts[0].value) if ts else "")
+    # rows = <OFM end row of the box> - <its start row>; the end row is the box's (clamped to the upscaled IFM height or not - the values are
+    # decided by the interpretations C10-c slice window / C10-j), possibly through a local that selects between the two
+    def _end_row_ok(e_):
+        if norm(e_) in ("new_end_coord[-3]", "original_end_coord[-3]"):
+            return True
+        if isinstance(e_, ast.IfExp):
+            return _end_row_ok(e_.body) and _end_row_ok(e_.orelse)
+        if isinstance(e_, ast.Name):
+            defs = [a_ for a_ in ast.walk(tf) if isinstance(a_, ast.Assign) and len(a_.targets) == 1 and norm(a_.targets[0]) == e_.id]
+            return bool(defs) and all(_end_row_ok(a_.value) for a_ in defs)
+        return False
+
+    ts_ok = False
+    if len(ts) == 1 and isinstance(ts[0].value, ast.BinOp) and isinstance(ts[0].value.op, ast.Mult):
+        l_, r_ = ts[0].value.left, ts[0].value.right
+        if norm(r_) == "stride":
+            l_, r_ = r_, l_
+        if norm(l_) == "stride" and isinstance(r_, ast.BinOp) and isinstance(r_.op, ast.Sub) and norm(r_.right) == "1" and isinstance(r_.left, ast.BinOp) and isinstance(r_.left.op, ast.Sub) \
+                and norm(r_.left.right) == "new_start_coord[-3]":
+            ts_ok = _end_row_ok(r_.left.left)
+    rep.check(ts_ok, "C10-c", f"{HS}:Box.transform_with_strides_and_skirt", "total_stride = stride * (rows - 1)", norm(ts[0].value) if ts else "")
     pt = [s for s in ast.walk(tf) if isinstance(s, ast.Assign) and norm(s.targets[0]) == "pad_top" and not isinstance(s.value, ast.Constant)]
     rep.check(len(pt) == 1 and norm(pt[0].value) == "max(0, 0 - new_start_coord[-3]) + skirt_top_remainder", "C10-c", f"{HS}:Box.transform_with_strides_and_skirt",
               "pad_top = rows of the receptive field above row 0", norm(pt[0].value) if pt else "")
@@ -239,6 +258,8 @@ def run(repo, rep):
               (f"at end={wrong[0]}, stride={wrong[1]}, skirt_bottom={wrong[2]}, upscale={wrong[3]}, height={wrong[4]} the statements give {wrong[5]}, expected {wrong[6]}: "
                "every non-last stripe of an operator reading an upscaled IFM gets one IFM row too few") if wrong else "")
     rule_slice_window(repo, rep)
+    rep.clause("C10-j", "explicit (fused PAD) padding: per-stripe pad_bottom is the receptive field of the stripe's last OFM row, also when the OFM is taller than the IFM (even kernels)")
+    rule_explicit_pad_bottom(repo, rep)
     rule_rolling_buffer_addressing(repo, rep)
     rule_tensor_effect_order(repo, rep)
     rule_tile_base_offset_side(repo, rep)
@@ -355,6 +376,61 @@ def run(repo, rep):
               "rolling-buffer storage starts from the tensor's storage shape (channels rounded to 16 for NHCWB16)", (str(norm(base[0].value)) if base else "") +
               ": the row stride of a brick-format rolling buffer drops the channel rounding, so the last brick of a row overlaps the next row")
     rep.floor("C10-g", 8)
+
+
+
+def rule_explicit_pad_bottom(repo, rep):
+    """(j) A PAD fused into a VALID convolution gives explicit padding (top, bottom) of up to k // 2 each; with an even kernel the OFM is
+    one row taller than the IFM. For a stripe that ends at OFM row e the last kernel application starts at (e - 1) * stride - top and
+    touches k rows: pad_bottom = max(0, (e - 1) * stride - top + k - H), whatever the height of the OFM. Decided by interpreting
+    Box.transform_with_strides_and_skirt (no slice, upscaling 1) on stripes of such operators; the skirt handed in is the one
+    calc_padding_and_skirt records for EXPLICIT padding (top, left, ypad - top, xpad - left with the SAME-padding total)."""
+    from ..absint import AList, AObj, Interp, Unknown
+
+    hs = repo.mod("high_level_command_stream")
+
+    def npsub(i, a, k, n):
+        x, y = a
+        xs = x.items if isinstance(x, AList) else list(x)
+        ys = y.items if isinstance(y, AList) else list(y)
+        return AList([p_ - q_ for p_, q_ in zip(xs, ys)])
+
+    def mkbox(i, a, k, n):
+        return AObj("Box", {"start_coord": a[0], "end_coord": a[1]}, cls="Box")
+
+    it = Interp(repo, hs, externs={"np.subtract": npsub, "numpy.subtract": npsub, "Box": mkbox})
+    site = f"{HS}:Box.transform_with_strides_and_skirt"
+    H = 16
+    wrong = []
+    pts = 0
+    for k in (2, 3, 4):
+        top = k // 2
+        ofm_h = H + 2 * top - k + 1
+        skirt_b = (k - 1) - top
+        for s0, e in ((0, ofm_h), (ofm_h - 1, ofm_h), (ofm_h - 5, ofm_h), (0, 8), (8, ofm_h - 1)):
+
+            def mk(k=k, top=top, s0=s0, e=e, skirt_b=skirt_b):
+                box = AObj("box", {"start_coord": AList([0, s0, 0, 0]), "end_coord": AList([1, e, ofm_h, 16])}, cls="Box")
+                ifm = AObj("shape", {"height": H, "width": H, "depth": 16, "batch": 1}, cls="Shape4D")
+                return [box, AList([1, 1, 1, 1]), AList([top, top, skirt_b, skirt_b]), ifm, Unknown("blocktype"), AList([0, 0, 0, 0]), k], {"upscaling_factor": 1, "op_type": None}
+
+            try:
+                ps = [p_ for p_ in it.run("Box.transform_with_strides_and_skirt", mk) if p_.kind == "return"]
+            except AnalysisError as ex:
+                raise AnalysisError(f"transform_with_strides_and_skirt not evaluable on explicit-padding stripes: {str(ex)[:120]}")
+            if not ps:
+                raise AnalysisError("transform_with_strides_and_skirt: no returning path on explicit-padding stripes")
+            for p_ in ps:
+                pads = tuple(p_.value[1:3])
+                if not all(isinstance(x_, int) for x_ in pads):
+                    raise AnalysisError(f"transform_with_strides_and_skirt: symbolic padding {pads}")
+                want = (max(0, top - s0), max(0, (e - 1) - top + k - H))
+                pts += 1
+                if pads != want:
+                    wrong.append((k, (s0, e), pads, want))
+    rep.check(not wrong, "C10-j", site, f"stripes of an operator with explicit (fused PAD) padding get pad_bottom = max(0, (e - 1) * stride - top + k - H), also when the OFM is taller than the IFM ({pts} points, kernels 2, 3, 4)",
+              "; ".join(f"kernel {k}, padding ({k // 2}, {k // 2}), OFM rows {se[0]}..{se[1]} of an IFM with {H} rows: (pad_top, pad_bottom) = {g}, the kernel needs {w}" for k, se, g, w in wrong[:3]) +
+              ": the stripe's OFM end row is clamped to the IFM height before the padding is derived (demonstrated: PAD (1,1) + CONV_2D 2x2 VALID striped in a cascade: the last stripe has 1 IFM row for a 2-row kernel)" if wrong else "")
 
 
 def rule_slice_window(repo, rep):
